@@ -834,12 +834,12 @@ def corr_link(chk, cases, cfg, real_draws):
             else:
                 ok = name in passed and same_json(passed[name], want)
             if not ok:
-                tm = tmpls.get(name if (cont, name) else name)
                 expr = list(definition["parameters"].items())[i]
                 t = tmpls.get(expr[0])
-                if t is not None and G.has_whole_body_embedding(t):
+                got = dict(dict(impl_ex).get(cont, [])).get(name)
+                if t is not None and G.has_whole_body_embedding(t) and got is not None and got[0] == "err":
                     sig = KF_EMBBODY
-                elif t is not None and any(p_lenient(t)):
+                elif t is not None and any(p_lenient(t)) and name in passed:
                     sig = KF_INDEX
                 else:
                     sig = "C10:into_step_input:derived-parameter-differs-from-the-link-expression"
